@@ -393,6 +393,11 @@ func cmdCheck(args []string) int {
 			case p.pass:
 				if o == "pass" {
 					validated++
+				} else if strings.HasPrefix(o, "race") {
+					// the race detector never reports a race that did not happen
+					p.f.Kind, p.f.ID = "race", "race-detector"
+					p.f.Msg = "the Go race detector reported a data race while this path was replayed natively as goroutines"
+					violations = append(violations, p)
 				} else {
 					passMismatch++
 					fmt.Fprintf(os.Stderr, "ENCODING MISMATCH: %s predicted pass, native outcome %q (%s)\n", p.f.Harness, o, p.file)
